@@ -56,7 +56,8 @@ impl Default for GenOpts {
     }
 }
 
-pub const MEM_BASE: u64 = 0x8000;
+/// the data window straddles a 1024-byte page boundary of the paged memory (0x8000)
+pub const MEM_BASE: u64 = 0x7fe0;
 pub const MEM_LEN: u64 = 64;
 
 #[derive(Clone, Debug)]
@@ -431,7 +432,20 @@ pub fn generate(rng: &mut Rng, o: &GenOpts) -> Gen {
     for (bi, idx) in branch_targets_needed {
         let t = if firsts.is_empty() { 0 } else { firsts[rng.usize(firsts.len())] };
         // computed target: (t - k) + k with a scalar-free expression, or plain constant
-        let e = if rng.bool() { cst(t, 64) } else { Expression::Add(Box::new(cst(t.wrapping_sub(8), 64)), Box::new(cst(8, 64))) };
+        let s64: Vec<&Scalar> = pool.iter().filter(|s| s.bits() == 64).collect();
+        let e = match rng.below(3) {
+            0 => cst(t, 64),
+            1 if !s64.is_empty() => {
+                // a target that reads a scalar: (s & 0) + t keeps the value, other forms go wherever the scalar says
+                let s = Expression::Scalar((*s64[rng.usize(s64.len())]).clone());
+                if rng.bool() {
+                    Expression::Add(Box::new(Expression::And(Box::new(s), Box::new(cst(0, 64)))), Box::new(cst(t, 64)))
+                } else {
+                    Expression::Add(Box::new(s), Box::new(cst(t, 64)))
+                }
+            }
+            _ => Expression::Add(Box::new(cst(t.wrapping_sub(8), 64)), Box::new(cst(8, 64))),
+        };
         *cfg.block_mut(bi).unwrap().instruction_mut(idx).unwrap().operation_mut() = il::Operation::branch(e);
         // a block ending in an indirect branch has no out-edges
         outs[bi].clear();
